@@ -123,6 +123,10 @@ func c05(c *Ctx) (*report.Result, error) {
 	res := newResult("C05")
 	res.RuleDoc["O5.1"] = "index discipline: every element access of proxyIDRingBuffer.entries uses (head + k) % len(entries) with the length read from the very slice that is indexed and nothing in between that can replace it"
 	res.RuleDoc["O5.2"] = "growth preserves order: ensureCapacity copies entry (head+i)%len to position i of the new slice for every i < size, and every path that replaces entries resets head to 0; Append ensures capacity before every element store"
+	res.RuleDoc["O5.4"] = "translation is the largest covered original id: AggregateUpTo's per-shard value is a MAX reduction over the entries it covers and only hole entries are skipped (same analysis as O1.2) - original ids of one shard need not increase with the proxy id (a re-sent older task, a lower watermark-only entry)"
+	if g := resolve(c, res, "O5.4", anchor{"proxy", "*proxyIDRingBuffer", "AggregateUpTo"}); g != nil {
+		checkAggregateMax(c, res, g, "O5.4")
+	}
 	res.RuleDoc["O5.3"] = "Discard advances head, size and startProxyID by one and the same clamped count; AggregateUpTo clamps its count to size and writes no field of the buffer"
 	res.Floors["O5.1"] = 3
 
